@@ -518,13 +518,13 @@ func phaseDispatch(t *testing.T, e *env, rng *rand.Rand, out *hx.Out) {
 						out.Nontrivial(fmt.Sprintf("%s|%d|%s|%s|%s|%v", cs.method, ci, kind, swc, obs, succeeded))
 						desc := fmt.Sprintf("method=%s kind=%s switch=%s", cs.method, kind, w.class)
 						if obs != "ran" && len(changed) > 0 {
-							violate(out, "blocked precompile call changed Cosmos stores " + fmt.Sprint(changed) + " " + desc)
+							violate(out, "blocked precompile call changed Cosmos stores "+fmt.Sprint(changed)+" "+desc)
 						}
 						if match && obs != "blocked:disabled" && obs != "blocked:readonly" {
 							violate(out, fmt.Sprintf("disabled precompile executed: %s entries=%s (%d entries, the matching one is number %d)", desc, ent, len(w.entries), firstMatch(w.entries, cs.to, mid)))
 						}
 						if kind != evmx.KCall && cs.writer && len(changed) > 0 {
-							violate(out, "state-changing method changed state through " + kind.String() + ": " + desc)
+							violate(out, "state-changing method changed state through "+kind.String()+": "+desc)
 						}
 						// third-party portfolios: the victim and the tx origin (neither is the direct caller x)
 						var mv, mo *big.Int
@@ -909,7 +909,7 @@ func phaseHistory(t *testing.T, e *env, rng *rand.Rand, out *hx.Out) {
 			var res *evmtypes.MsgEthereumTxResponse
 			desc := fmt.Sprintf("method=%s(%s) kind=%s route=%s step=%d", method, argStr, kind, rt.name, k)
 			if pr := hx.Try(func() error { res, err = evmx.SendTraced(cctx, app, tx, tr); return nil }); pr != "ok" {
-				violate(out, "precompile call panicked (" + pr + "): " + desc)
+				violate(out, "precompile call panicked ("+pr+"): "+desc)
 				break
 			}
 			if err != nil || len(tr.Frames) <= preFrame {
@@ -965,13 +965,13 @@ func phaseHistory(t *testing.T, e *env, rng *rand.Rand, out *hx.Out) {
 			// monitors
 			changed := hx.DiffDump(dumpBefore, e.dump(cctx))
 			if strings.HasPrefix(status, "blocked") && len(changed) > 0 {
-				violate(out, "blocked precompile call changed Cosmos stores " + fmt.Sprint(changed) + " " + desc)
+				violate(out, "blocked precompile call changed Cosmos stores "+fmt.Sprint(changed)+" "+desc)
 			}
 			if shouldBlock(entries, to, mid) && !strings.HasPrefix(status, "blocked") {
 				violate(out, fmt.Sprintf("disabled precompile executed: %s entries=%s (%d entries, the matching one is number %d)", desc, entStr(entries), len(entries), firstMatch(entries, to, mid)))
 			}
 			if kind != evmx.KCall && method != "view" && len(changed) > 0 {
-				violate(out, "state-changing method changed state through " + kind.String() + ": " + desc)
+				violate(out, "state-changing method changed state through "+kind.String()+": "+desc)
 			}
 			for _, a := range accts {
 				if a.id == caller.id {
